@@ -49,11 +49,11 @@ def make_args(gate, rng):
     out = {}
     for a in gc.GATE_ARGS[gate]:
         if a == "theta":
-            v = rng.choice([rng.uniform(-7, 7), math.pi, -math.pi / 2, math.pi / 4, -math.pi / 4])
+            v = rng.choice([rng.uniform(-7, 7), math.pi, -math.pi / 2, math.pi / 4, -math.pi / 4, 0.0, rng.uniform(-1e-4, 1e-4)])
         elif a.startswith("phi"):
             v = rng.uniform(-7, 7)
         elif a in ("t_cnot", "t_ecr"):
-            v = rng.uniform(6, 20) * TG
+            v = rng.choice([rng.uniform(6, 20), rng.uniform(3.1, 6)]) * TG       # long and short (positive CR time) gates
         elif a == "t_cr":
             v = rng.uniform(0.5, 8) * TG
         elif a in ("Dt", "tm"):
@@ -78,8 +78,16 @@ def make_args(gate, rng):
     return out
 
 
+_GATE_SETS = {}
+
+
 def sample_det(desc, gate, args, seed):
-    gs = gc.build_gate_set(desc)
+    # ONE gate-set object per description serves all cases of the run (as a simulator's gate set does): a sample must
+    # follow the law whatever was requested from the object before
+    key = json.dumps(desc)
+    if key not in _GATE_SETS:
+        _GATE_SETS[key] = gc.build_gate_set(desc)
+    gs = _GATE_SETS[key]
     np.random.seed(seed)
     with np.errstate(all="ignore"):
         G = np.array(getattr(gs, gate)(*[args[a] for a in gc.GATE_ARGS[gate]]), dtype=complex)
@@ -136,6 +144,23 @@ def main(ctx):
                     worst = max(worst, d)
                 if bad:
                     fails.append(({"kind": "det-law", "gate": gate}, desc, gate, args, seeds, bad))
+    # sweeps on one gate-set object: the same request with only the gate time (or only one T1) changed
+    for desc in descs:
+        for gate in ("CNOT", "CNOT_inv", "ECR", "ECR_inv", "CR", "relaxation"):
+            base = make_args(gate, rng)
+            tkey = next(k for k in base if k in ("t_cnot", "t_ecr", "t_cr", "Dt"))
+            earlier = []
+            for f in (1.0, 1.7, 0.6):
+                args = dict(base)
+                args[tkey] = base[tkey] * f if base[tkey] * f > 3.1 * TG or tkey in ("t_cr", "Dt") else base[tkey] * 1.3
+                seeds = [rng.randrange(2 ** 31) for _ in range(2)]
+                bad, d = oracle(desc, gate, args, seeds)
+                ctx.count()
+                hist[f"{gate}/sweep"] = hist.get(f"{gate}/sweep", 0) + 1
+                if bad:
+                    fails.append(({"kind": "det-law", "gate": gate}, desc, gate, dict(args, _earlier_requests=list(earlier)), seeds,
+                                  bad + " (gate-time sweep on one gate-set object)"))
+                earlier.append(dict(args))
     ctx.sample({"gate_set": descs[0], "gate": "CNOT_inv", "args": make_args("CNOT_inv", rng)})
     cov["distinct_nontrivial"] = len(nontrivial)
     cov["rule"] = ("case = (gate set, gate, arguments, 3 numpy seeds); control/target p, T1, T2 drawn independently (strongly "
@@ -153,7 +178,7 @@ def main(ctx):
         "Jacobi's formula det(exp A) = exp(tr A) is proved in QG/Spec/DetExp.lean (not an axiom)",
         "scipy.linalg.expm is the matrix exponential; the integrator returns the pulse-shaped integrals (C12); pulse "
         "parametrisations are continuous"]
-    ctx.assumptions += ["T1 >= 0 (0 = off); cross-resonance angle != 0 (the code calls it with +-pi/4); exact arithmetic in the theorems",
+    ctx.assumptions += ["T1 >= 0 (0 = off); exact arithmetic in the theorems",
                         "tau_q per gate: tg for single-qubit pulses, t_cr for CR, Dt for idle, t for CNOT/CNOT_inv, t-tg for ECR, "
                         "t+tg for reversed ECR (sum of the scheduled pulses on each qubit, proved from the extracted product tree)"]
     seen = set()
@@ -175,6 +200,9 @@ def replay(ctx, path):
     rp = json.load(open(path))["replay"]
     if "gate" not in rp:
         print("replay names a broken obligation:", json.dumps(rp)[:400]); return 1
-    bad, d = oracle(rp["gate_set"], rp["gate"], rp["args"], rp["seeds"])
+    args = dict(rp["args"])
+    for prev in args.pop("_earlier_requests", []):                 # a sweep: the same gate-set object served these first
+        oracle(rp["gate_set"], rp["gate"], prev, rp["seeds"][:1])
+    bad, d = oracle(rp["gate_set"], rp["gate"], args, rp["seeds"])
     print("gate set", rp["gate_set"], "gate", rp["gate"], "args", rp["args"]); print("oracle:", bad or f"holds (deviation {d})")
     return 1 if bad else 0
